@@ -2,6 +2,9 @@
 // interleavings (stabilize / fixFinger / checkPredecessor issued in seeded random order, including
 // in the middle of a paused join), then repair rounds until nothing changes; the driver checks the
 // implementation's pointers against the true ring order at every quiescent point.
+// Then (upd.go): overlapping stabilize runs on one node publishing their successor lists, the accesses of the
+// current source executed under every interleaving of two runs (and sampled ones of three and four), followed by
+// one further run with the true list — judged by the driver: the true list must be published afterwards.
 package main
 
 import (
@@ -13,13 +16,15 @@ import (
 
 func main() {
 	hlib.Guarded(func(run *hlib.Run) {
-		run.Rule = "histories of create/join/leave over 2..N real LocalNodes with adversarial ids, background tasks (stabilize, fixFinger, checkPredecessor) issued explicitly in seeded random order between and inside membership changes (paused joins), then full repair rounds until a fixpoint; non-trivial = distinct history with at least one join and one leave; quiescent points judged: predecessor, successor list, all 48 fingers"
+		run.Rule = "histories of create/join/leave over 2..N real LocalNodes with adversarial ids, background tasks (stabilize, fixFinger, checkPredecessor) issued explicitly in seeded random order between and inside membership changes (paused joins), then full repair rounds until a fixpoint; non-trivial = distinct history with at least one join and one leave; quiescent points judged: predecessor, successor list, all 48 fingers; plus upd = the successor-list publication of the current stabilize source (extracted accesses to succListHash/successors/successorsMu) under every interleaving of 2 overlapping runs x every combination of views, sampled (thorough: exhaustive) interleavings of 3..4 runs and random pick sequences, each followed by one further run with the true list, which must then be the published one"
 		rng := hlib.NewRng(run.Seed)
 		if run.Replay != "" {
 			s := ringh.NewSession(run, rng)
 			for _, t := range run.ReplayLines() {
 				switch t[0] {
 				case "reset":
+				case "upd", "updprog":
+					updReplay(run, t)
 				case "quiet":
 					s.Quiet()
 				default:
@@ -174,5 +179,6 @@ func main() {
 			}
 			run.Case(key)
 		}
+		updCases(run, rng)
 	})
 }
